@@ -13,6 +13,10 @@ executor's or its assessor's express(), any other operations (whole requests, fu
 ...) are carried out, and it is ended ("e") later at another clock value - either by a second thread
 (every begun request runs on a thread of its own, hand-shaking with the driver so that exactly one thread
 runs at a time) or re-entrantly (the suspended agent itself carries out the operations in between).
+The loop objects are LIVE: an operation "s" assigns one of the public configuration attributes (gate_logic,
+assessor.name, enable_cache, cache_ttl, enable_circuit_breaker, failure_threshold, recovery_timeout) - between
+requests or while requests are in flight; "the configured gate logic" of the property is what is configured when
+the request is dealt with, not what the loop was built with.
 translate() rebuilds the gate decision table by calling the real
 _apply_gate_logic on every combination and writes it to coq/gen/Gen_C07.v, where
 Gen_C07_ok / Gen_C07_complete must re-prove that the model's gate is that table.
@@ -41,6 +45,9 @@ NEVER = 10 ** 9  # a failure_threshold no history reaches
 NAMES = ["Gene_Y (Risk)", "assessor-2", "Z", ""]
 UNKNOWN_CODES = (4, 5, 6, NOT_ASKED)
 CAP = 1000      # the literal in _cache_result
+# the configuration attributes a caller can assign on a live loop -> the constructor of Model.v's [setting]
+SETTINGS = {"logic": "SLogic", "name": "SAssessor", "cache": "SCache", "ttl": "STtl", "breaker": "SBreaker",
+            "threshold": "SThreshold", "recovery": "SRecovery"}
 BASE = _real_datetime(2026, 1, 1, 0, 0, 0)
 DAY = 86400 * 1000          # all times and TTLs of a case are in milliseconds
 
@@ -200,6 +207,10 @@ class Recorder:
     def name(self):
         return self.inner.name
 
+    @name.setter
+    def name(self, v):          # loop.assessor.name = v renames the agent itself
+        self.inner.name = v
+
     def express(self, signal):
         self.calls += 1
         self.seen.append(signal.content)
@@ -255,7 +266,9 @@ class C07(Check):
     N_QUICK = 900
     N_THOROUGH = 20000
     RULE = ("a case is a history of operations - run(prompt) at a clock value with scripted agent behaviour, clear_cache(), "
-            "reset_circuit_breaker(), the read-only calls - against one or two loop objects (own configuration, agents, cache, "
+            "reset_circuit_breaker(), the read-only calls, assignments to the configuration attributes of the live object "
+            "(gate_logic, assessor.name, enable_cache, cache_ttl, enable_circuit_breaker, failure_threshold, recovery_timeout) "
+            "- against one or two loop objects (own configuration, agents, cache, "
             "breaker). exhaustive: all 6 gate logics x 8 x 8 agent verdicts (EXECUTE, PERMIT, BLOCK, FAILURE, DEFER, UNKNOWN, "
             "other string, exception), each followed by a repeat of the same prompt with different scripted verdicts (cache "
             "on) = 384 histories, 24 re-run with the cache off; 6 logics x 3 kinds of earlier reply (passed with token, passed "
@@ -274,7 +287,16 @@ class C07(Check):
             "assessor x 11 situations (another prompt / the same prompt answered meanwhile, cache cleared meanwhile, TTL "
             "counted from the return, two and three requests in flight (LIFO and, with threads, FIFO), both for one prompt, "
             "a begin that is served from the cache / rejected at once, breaker tripped by a request in flight, the other "
-            "loop object) over 10 verdict pairs = 252 histories. random: 1..14 operations (5% clear_cache, 7% read-only calls, 4% reset_circuit_breaker) on 1 or 2 loops over "
+            "loop object) over 10 verdict pairs = 252 histories; reconfiguration: all 6 x 6 pairs (logic the loop is built "
+            "with, logic assigned later) x all 8 x 8 verdict pairs after the assignment; 30 pairs of different logics x 9 "
+            "situations (assignment + clear_cache() + the same request again, no clear: the earlier reply served until the "
+            "TTL boundary and decided anew after it, assigned while the request is inside an agent (thread / re-entrant), "
+            "there and back while in flight, the OTHER loop object reconfigured, there and back, two assignments in a row, "
+            "begun and ended after the assignment) over 14 verdict pairs; 6 logics x 10 situations for the other "
+            "attributes (assessor renamed between / during requests, TTL shortened / lengthened around an entry's age, "
+            "cache off and on again, off / on while in flight, breaker enabled when its counters had already opened it, "
+            "disabled while open, threshold lowered, recovery time shortened); 30 histories with the built-in BioAgents "
+            "(dry run under one logic, go live under another, with and without clear_cache()). random: 1..14 operations (5% clear_cache, 7% read-only calls, 4% reset_circuit_breaker) on 1 or 2 loops over "
             "the re-spellings of one base text plus 0..2 unrelated texts; prompt alphabet = 23 base texts x 30 re-spellings "
             "(whitespace, case, NFC/NFD/NFKC/NFKD, full-width, ligatures, homoglyphs, zero-width/BOM/NUL, truncations and "
             "extensions beyond 16/64 chars; non-BMP, RTL, Hangul, combining sequences); clock steps in {0,1,40,50,60,999,1000,"
@@ -284,7 +306,9 @@ class C07(Check):
             "on_block/on_permit callbacks in 40%, built-in agents in 8%, 4 assessor names, 9 spellings of 'other' verdicts, 6 "
             "exception classes, per-history crash rates up to 40%; 3 in 8 random histories have overlapping requests (2 in 8 "
             "threads, 1 in 8 re-entrant): up to 3 in flight, ended in any order (threads) / innermost first (re-entrant), 15% "
-            "of the threaded ones leave requests suspended for good, and end by asking for two of the prompts again. "
+            "of the threaded ones leave requests suspended for good, and end by asking for two of the prompts again; 3 in 10 "
+            "random histories (sequential or overlapping) reconfigure the live object(s): there 15% of the operations are "
+            "assignments (half of them gate_logic, the rest spread over the six other attributes, values from the lists above). "
             "distinct by case content; non-trivial = every enumerated "
             "cell, and a random history only if it contains a cache hit, an expiry, an exception, a breaker rejection or a "
             "not-blocked reply or a request that was suspended")
@@ -307,15 +331,25 @@ class C07(Check):
                   "verdicts, every not-blocked reply goes back to a request whose verdicts satisfied the logic, every token "
                   "is bound to H of the prompt being answered, a cached reply repeats the uncached reply of a request for "
                   "the same prompt that had returned before, within the TTL counted from that return; histories without "
-                  "overlap are exactly the sequential ones. The gate table is "
+                  "overlap are exactly the sequential ones; histories that RECONFIGURE the live object (assignments to gate_logic, "
+                  "assessor.name, enable_cache, cache_ttl and the three breaker settings anywhere, also while requests are in "
+                  "flight): an assignment changes the configuration and nothing else, every operation is carried out under the "
+                  "configuration at construction with the assignments so far applied, a request in flight is judged under the "
+                  "configuration in force when it returns, every not-blocked reply that is not a cached one satisfies the logic "
+                  "in force at that moment (a cached one: the logic in force when its original was decided), cached replies "
+                  "repeat an earlier uncached reply to the same prompt within the TTL now in force, a token's issuer is the "
+                  "assessor's name when the reply was produced, two objects reconfigured at will stay isolated; histories "
+                  "without an assignment are exactly the overlapping ones. The gate table is "
                   "regenerated from the real _apply_gate_logic on every run and re-proved equal to the model's.")
     LEVEL_NOTE = ("Trusts: Coq kernel+VM; harness and enumeration translator; sha256/md5 truncations abstract (H, K), both "
-                  "injective on each history's prompts (checked per case); configuration not mutated between requests. "
+                  "injective on each history's prompts (checked per case); configuration changed only by plain assignment of "
+                  "values of the constructor's types to the seven attributes, between the (half-)operations of a history. "
                   "Axioms: none (Print Assumptions: closed).")
     TECHNIQUE = ("Coq: exhaustive case analysis for the finite gate table + induction over the operation history with a cache "
                  "provenance invariant + refinement lemma (breaker history -> admitted sub-history) + projection lemma for "
                  "two objects + two-half (enter/leave) small-step semantics of run() with a cache provenance invariant over "
-                 "arbitrary interleavings; table regenerated by enumeration of the real function; vm_compute correspondence against "
+                 "arbitrary interleavings + the same invariant with the configuration as part of the state (entry = own gate outcome "
+                 "of an earlier request under the configuration in force at that moment) for histories with assignments; table regenerated by enumeration of the real function; vm_compute correspondence against "
                  "CoherentFeedForwardLoop.run")
     TRUSTED = ["modelled not verified: sha256(prompt)[:16] and md5(prompt)[:16] are abstract functions H and K; the harness "
                "checks on every case that both are injective on the prompts of the case and observes only whether "
@@ -339,10 +373,19 @@ class C07(Check):
                "suspended in is varied by the harness but is not an input of the model (the loop touches none of its state "
                "between the two express() calls); a stub answers according to the request whose run() invoked it, not "
                "according to the text it is handed",
+               "reconfiguration: the caller assigns loop.gate_logic (a GateLogic member), loop.assessor.name (str), "
+               "loop.enable_cache / loop.enable_circuit_breaker (bool), loop.failure_threshold (int), loop.cache_ttl / "
+               "loop.recovery_timeout (timedelta of whole milliseconds) between two operations of the history (while a "
+               "request is suspended inside an agent counts as between); for a request that is in flight during an "
+               "assignment the monitor accepts any value configured between its begin and its return (the model says: the "
+               "one at its return); a cached reply is held to what was configured when its original was decided; a reply "
+               "produced while enable_cache was False is nobody's original",
                "virtual clock: loops.datetime rebound to an object whose now() is constant during one half of a request (a request that is suspended ends at a later clock value than it began); times, "
                "TTLs and recovery times are whole milliseconds (x_seconds = ms/1000.0, exact in timedelta's microseconds)"]
     ASSUMPTIONS = ["cache theorem: md5(prompt)[:16] (K) is injective on the prompts of the history; token theorems: so is sha256(prompt)[:16] (H)",
-                   "gate_logic, assessor.name, cache_ttl, enable_cache and the breaker settings are not mutated between requests of one history",
+                   "the configuration is changed only by assigning gate_logic, assessor.name, enable_cache, cache_ttl, enable_circuit_breaker, "
+                   "failure_threshold, recovery_timeout (values of the constructor's types); executor / assessor objects, callbacks, "
+                   "silent and private attributes are not replaced or mutated during a history",
                    "prompts are UTF-8 encodable str (run() raises UnicodeEncodeError on a lone surrogate: no reply at all)",
                    "an 'agent exception' is an Exception subclass (BaseException such as KeyboardInterrupt propagates)",
                    "callers and callbacks do not mutate a returned LoopResult (the cache hands out the stored object itself); callbacks do not raise"]
@@ -416,6 +459,8 @@ class C07(Check):
             # a quarter of the histories have requests that overlap on a loop object (second thread / re-entrant agent)
             overlap = rng.choice([None, None, None, None, None, "threads", "threads", "nested"])
             builtin = overlap is None and rng.random() < 0.08       # the loop's own BioAgents (behind a recorder) instead of stubs
+            # 3 in 10 histories reconfigure the live loop object(s): one operation in seven is an assignment
+            reconf = rng.random() < 0.3
             loops = []
             for _k in range(nloops):
                 u = rng.random()
@@ -431,6 +476,9 @@ class C07(Check):
                                        budget=rng.choice([100, 100, 50, 1000]), **brk))
             if nloops == 2 and rng.random() < 0.5:      # two objects that differ in nothing / only in the logic
                 loops[1] = dict(loops[0], logic=rng.choice([loops[0]["logic"], rng.randrange(6)]))
+            if builtin:
+                for c in loops:
+                    c["name"] = 0       # the built-in assessor has its own name
             k = rng.choice([1, 2, 3, 4, 5, 6, 8, 10, 14])
             t = rng.choice([0, 0, 7000, 10 ** 6])
             # a history leans towards one pair of verdicts so that passes and tokens are frequent,
@@ -448,6 +496,9 @@ class C07(Check):
                     elp, rid = flying.pop() if overlap == "nested" else flying.pop(rng.randrange(len(flying)))
                     t += rng.choice(self.STEPS)
                     ops.append([elp, "e", rid, t])
+                    continue
+                if reconf and rng.random() < 0.15:
+                    ops.append(self._random_setting(rng, lp))
                     continue
                 if u < 0.05:
                     ops.append([lp, "c"])
@@ -488,6 +539,134 @@ class C07(Check):
                 out.append({"loops": loops, "ops": ops, "overlap": overlap})
                 continue
             out.append({"loops": loops, "ops": ops})
+        return out
+
+    def _random_setting(self, rng, lp):
+        attr = rng.choice(["logic"] * 10 + ["name", "name", "cache", "cache", "ttl", "ttl", "breaker", "breaker", "threshold", "recovery"])
+        v = {"logic": lambda: rng.randrange(6), "name": lambda: rng.randrange(len(NAMES)), "cache": lambda: rng.random() < 0.6,
+             "ttl": lambda: rng.choice(self.TTLS), "breaker": lambda: rng.random() < 0.6,
+             "threshold": lambda: rng.choice(self.THRESHOLDS + [NEVER]), "recovery": lambda: rng.choice(self.RECOVERIES)}[attr]()
+        return [lp, "s", attr, v]
+
+    # reconfiguration of a live loop object.  (1) every ordered pair of gate logics (built with / assigned later) x all
+    # 8 x 8 verdict pairs after the assignment; (2) every ordered pair of different logics x what lies between the
+    # assignment and the request; (3) the other configuration attributes
+    RECONF_PAIRS = [(0, 2), (0, 4), (3, 1), (2, 1), (5, 1), (0, 1), (0, 0), (6, 1), (1, 3), (1, 2), (0, 5), (4, 1), (0, 6), (0, 3)]
+    RECONF_SCENARIOS = ["go-live-clear", "cached-across", "in-flight-threads", "in-flight-nested", "there-and-back-in-flight",
+                        "other-loop", "there-and-back", "twice", "begun-after"]
+    SETTING_SCENARIOS = ["rename", "rename-in-flight", "ttl-shorter", "ttl-longer", "cache-off-on", "cache-off-in-flight",
+                         "breaker-enabled-when-open", "breaker-disabled-when-open", "threshold-lowered", "recovery-shortened"]
+
+    def _reconf_table_cases(self):
+        """Every pair (logic the loop is built with, logic assigned later) x all 8 x 8 verdict pairs after the assignment."""
+        out = []
+        i = 0
+        for first in range(6):
+            for second in range(6):
+                ops = [[0, "r", PROMPTS[i % len(PROMPTS)], 0, 0, i, 1, i], [0, "s", "logic", second]]
+                for z in range(8):
+                    for y in range(8):
+                        ops.append([0, "r", f"{BASES[i % len(BASES)][:12]} {z}{y}", 1 + 8 * z + y, z, i, y, i // 3])
+                out.append({"loops": [self._cfg(first, cache=False, name=i % len(NAMES), silent=(i % 5 != 0), callbacks=(i % 3 == 0))],
+                            "ops": ops})
+                i += 1
+        return out
+
+    def _reconf_cases(self):
+        out = []
+        i = 36
+        for first in range(6):
+            for second in range(6):
+                if first == second:
+                    continue
+                for sc in self.RECONF_SCENARIOS:
+                    z, y = self.RECONF_PAIRS[i % len(self.RECONF_PAIRS)]
+                    third = (second + 1 + i % 4) % 6
+                    p, q = PROMPTS[i % len(PROMPTS)], PROMPTS[(i + 7) % len(PROMPTS)]
+                    if p == q:
+                        p, q = "a", "b"
+                    R = lambda pr, t, zz=z, yy=y, lp=0: [lp, "r", pr, t, zz, i, yy, i // 3]
+                    A = lambda t, pr=p, rid=0: [0, "b", rid, pr, t, z, i, y, i // 3, i % 2]
+                    S = lambda lg, lp=0: [lp, "s", "logic", lg]
+                    cfg = self._cfg(first, ttl=(300000, 2000, 50)[i % 3], name=i % len(NAMES), silent=(i % 5 != 0), callbacks=(i % 3 == 0),
+                                    breaker=(i % 4 == 0))
+                    ttl = cfg["ttl"]
+                    case = {"loops": [cfg]}
+                    if sc == "go-live-clear":       # dry run, assignment, clear_cache(), the same request again
+                        ops = [R(p, 0), R(q, 1, 0, 1), S(second), [0, "c"], R(p, 2), R(q, 3, 0, 1), R(p, 4, 2, 2)]
+                    elif sc == "cached-across":     # no clear: the reply decided before the assignment is served until it expires
+                        ops = [R(p, 0), S(second), R(p, ttl - 1, 2, 2), R(p, ttl), R(p, ttl + 1, 2, 2), [0, "o"], R(q, ttl + 2)]
+                    elif sc in ("in-flight-threads", "in-flight-nested"):   # assigned while the request is inside an agent
+                        ops = [A(0), S(second), [0, "e", 0, 1], R(q, 2), A(3, pr=q + "!", rid=1), [0, "e", 1, 4], R(p, ttl + 5)]
+                        case["overlap"] = sc[10:]
+                    elif sc == "there-and-back-in-flight":
+                        ops = [A(0), S(second), R(q, 1), S(first), [0, "e", 0, 2], R(q + "!", 3), S(second), R(p + "!", 4)]
+                        case["overlap"] = ("threads", "nested")[i % 2]
+                    elif sc == "other-loop":        # the OTHER object is reconfigured
+                        case["loops"] = [cfg, dict(cfg)]
+                        ops = [S(second, lp=1), R(p, 0), R(p, 1, lp=1), S(third, lp=1), R(q, 2), R(q, 3, lp=1), S(second), R(q + "!", 4), R(q + "!", 5, lp=1)]
+                    elif sc == "there-and-back":
+                        ops = [S(second), R(p, 0), S(first), R(q, 1), [0, "c"], R(p, 2), R(q, 3, 2, 2)]
+                    elif sc == "twice":             # two assignments in a row: the last one counts
+                        ops = [R(p, 0, 0, 1), S(third), S(second), R(q, 1), [0, "x"], S(third), R(q + "!", 2), R(q, ttl + 2)]
+                    else:                           # begun-after: in flight across nothing; begun and ended after the assignment
+                        ops = [R(q, 0, 0, 1), S(second), A(1), R(q + "!", 2), [0, "e", 0, 3], R(p, 4, 2, 2)]
+                        case["overlap"] = ("threads", "nested")[i % 2]
+                    case["ops"] = ops
+                    out.append(case)
+                    i += 1
+        for l in range(6):
+            for sc in self.SETTING_SCENARIOS:
+                p, q = PROMPTS[i % len(PROMPTS)], PROMPTS[(i + 7) % len(PROMPTS)]
+                if p == q:
+                    p, q = "a", "b"
+                R = lambda pr, t, zz=0, yy=1: [0, "r", pr, t, zz, i, yy, i // 3]
+                A = lambda t, pr=p, rid=0, zz=0, yy=1: [0, "b", rid, pr, t, zz, i, yy, i // 3, i % 2]
+                n0, n1 = i % len(NAMES), (i + 1 + i // 4 % 3) % len(NAMES)
+                cfg = self._cfg(l, ttl=1000, name=n0, silent=(i % 5 != 0), callbacks=(i % 3 == 0))
+                case = {"loops": [cfg]}
+                if sc == "rename":                  # the cached token keeps its issuer, a fresh one names the assessor as it is called now
+                    ops = [R(p, 0), [0, "s", "name", n1], R(p, 1, 2, 2), R(q, 2), [0, "c"], R(p, 3), [0, "s", "name", n0], R(q, 1003)]
+                elif sc == "rename-in-flight":
+                    ops = [A(0), [0, "s", "name", n1], [0, "e", 0, 1], R(p, 2, 2, 2), R(q, 3)]
+                    case["overlap"] = ("threads", "nested")[i % 2]
+                elif sc == "ttl-shorter":
+                    ops = [R(p, 0), R(p, 500, 2, 2), [0, "s", "ttl", 400], R(p, 501, 2, 2), R(p, 900, 0, 1), R(p, 901, 2, 2)]
+                elif sc == "ttl-longer":
+                    ops = [R(p, 0), [0, "s", "ttl", 5000], R(p, 1000, 2, 2), R(p, 4999, 2, 2), R(p, 5000, 2, 2), [0, "s", "ttl", 0], R(p, 5000, 0, 1)]
+                elif sc == "cache-off-on":
+                    ops = [R(p, 0), [0, "s", "cache", False], R(p, 1, 2, 2), R(q, 2), [0, "s", "cache", True], R(p, 3, 2, 2), R(q, 4, 2, 2), R(p, 1000, 2, 2)]
+                elif sc == "cache-off-in-flight":   # looked up with the cache on, not stored with the cache off (and the other way round)
+                    ops = [A(0), [0, "s", "cache", False], [0, "e", 0, 1], [0, "s", "cache", True], R(p, 2, 2, 2), [0, "s", "cache", False],
+                           A(3, pr=q, rid=1), [0, "s", "cache", True], [0, "e", 1, 4], R(q, 5, 2, 2)]
+                    case["overlap"] = ("threads", "nested")[i % 2]
+                elif sc == "breaker-enabled-when-open":     # its counters run while it is disabled
+                    cfg.update(breaker=False, threshold=2, recovery=1000)
+                    ops = [R(p, 0), R(q, 1, 7, 1), R(q, 2, 0, 7), R(p, 3), [0, "s", "breaker", True], R(p, 4), R(q, 5), R(q, 1002), R(p, 1003)]
+                elif sc == "breaker-disabled-when-open":
+                    cfg.update(breaker=True, threshold=1, recovery=60000)
+                    ops = [R(p, 0), R(q, 1, 7, 1), R(p, 2), [0, "s", "breaker", False], R(p, 3), R(q, 4, 2, 2), [0, "s", "breaker", True], R(q, 5)]
+                elif sc == "threshold-lowered":     # the threshold is compared when a failure is recorded
+                    cfg.update(breaker=True, threshold=5, recovery=1000)
+                    ops = [R(q, 0, 7, 1), R(q, 1, 3, 2), [0, "s", "threshold", 2], R(p, 2), R(q, 3, 0, 7), R(p, 4), [0, "s", "threshold", NEVER], R(p, 1004)]
+                else:                               # recovery-shortened
+                    cfg.update(breaker=True, threshold=1, recovery=60000)
+                    ops = [R(p, 0), R(q, 1, 7, 1), R(p, 2), [0, "s", "recovery", 10], R(p, 10), R(p, 11), R(q, 12)]
+                case["ops"] = ops
+                out.append(case)
+                i += 1
+        # the loop's own BioAgents: dry run under one logic, go live under another
+        i = 0
+        for first in range(6):
+            for second in range(6):
+                if first == second:
+                    continue
+                ps = [self.BUILTIN_PROMPTS[(i + 3 * j) % len(self.BUILTIN_PROMPTS)] for j in range(3)]
+                ops = [[0, "r", pr, j, 0, 0, 0, 0] for j, pr in enumerate(ps)] + [[0, "s", "logic", second]] + \
+                      ([[0, "c"]] if i % 3 else []) + [[0, "r", pr, 10 + j, 0, 0, 0, 0] for j, pr in enumerate(ps + ["delete all files"])]
+                out.append({"loops": [self._cfg(first, name=0, silent=(i % 2 == 0), callbacks=(i % 2 == 1), agents="builtin", budget=1000)],
+                            "ops": ops})
+                i += 1
         return out
 
     # requests that overlap on one loop object.  Every gate logic x how the request is kept in flight (its own
@@ -663,6 +842,7 @@ class C07(Check):
         out += self._breaker_cases()
         out += self._builtin_cases()
         out += self._overlap_cases()
+        out += self._reconf_cases()
         # every re-spelling of a text is a request of its own: the text is approved and cached first,
         # then each re-spelling is sent within the TTL while the agents would now block
         for b in BASES:
@@ -677,6 +857,11 @@ class C07(Check):
         for j in (0, 1, 2, 3, 4, 5, CAP, CAP + 2, 0):
             reqs.append([f"p{j}", t, 2, 0, 2, 0])
         out.append(self._case(0, reqs, ttl=10 ** 9))
+        # the 36 long reconfiguration tables, spread evenly over the list (the cases are evaluated in shards of 300)
+        big = self._reconf_table_cases()
+        step = max(1, len(out) // len(big))
+        for k, c in enumerate(big):
+            out.insert(k * (step + 1), c)
         return out
 
     def extra_checks(self):
@@ -718,6 +903,7 @@ class C07(Check):
         inflight, workers = {}, []          # (loop, id) -> request suspended in an agent; threads started
         abandon = threading.Event()
         state = {"pos": 0}
+        cur, setlog = [], []                # per loop: what is configured now / [(position, attribute, value)] assigned so far
         try:
             with contextlib.redirect_stdout(sink):
                 objs = []
@@ -744,6 +930,35 @@ class C07(Check):
                         asr = Stub(NAMES[cfg["name"]], ActionProtein, 1, ctx)
                     loop.executor, loop.assessor = ex, asr
                     objs.append((loop, ex, asr, events))
+                    cur.append({"logic": LOGIC_NAMES[cfg["logic"]], "name": asr.name, "breaker": bool(cfg.get("breaker")),
+                                "cache": bool(cfg["cache"])})
+                    setlog.append([])
+
+                def assign(i, lp, attr, v):
+                    """A caller assigns a public configuration attribute of the live loop object."""
+                    loop, ex, asr, events = objs[lp]
+                    if attr == "logic":
+                        loop.gate_logic = getattr(L.GateLogic, LOGIC_NAMES[v])
+                        val = LOGIC_NAMES[v]
+                    elif attr == "name":
+                        loop.assessor.name = NAMES[v]
+                        val = loop.assessor.name
+                    elif attr == "cache":
+                        loop.enable_cache = val = bool(v)
+                    elif attr == "ttl":
+                        loop.cache_ttl = _timedelta(seconds=v / 1000.0)
+                        val = v
+                    elif attr == "breaker":
+                        loop.enable_circuit_breaker = val = bool(v)
+                    elif attr == "threshold":
+                        loop.failure_threshold = val = v
+                    elif attr == "recovery":
+                        loop.recovery_timeout = _timedelta(seconds=v / 1000.0)
+                        val = v
+                    else:
+                        raise HarnessBug(f"no such configuration attribute: {attr!r}")
+                    cur[lp][attr] = val
+                    setlog[lp].append((i, attr, val))
 
                 def call_run(lp, rq):
                     """loop.run(prompt) on the calling thread, with rq on top of that thread's request stack."""
@@ -768,6 +983,7 @@ class C07(Check):
                     builtin = str(case["loops"][lp].get("agents")).startswith("builtin")
                     return {"index": i, "loop": lp, "prompt": p, "script": ((z, zv), (y, yv)), "called": [0, 0], "shown": [],
                             "suspend": suspend, "builtin": builtin, "c0": len(events),
+                            "cfg0": dict(cur[lp]), "set0": len(setlog[lp]),
                             "e0": getattr(ex, "calls", 0), "a0": getattr(asr, "calls", 0),
                             "s0": len(getattr(ex, "seen", ())), "s1": len(getattr(asr, "seen", ())),
                             "rec": {"op": "r", "loop": lp, "prompt": p, "t": t, "z": z, "y": y, "begun": i}}
@@ -779,6 +995,14 @@ class C07(Check):
                     rec = rq["rec"]
                     rec["done"] = i
                     recs[i] = rec
+                    # what was configured on this loop object while the request was being dealt with: at its
+                    # begin, and whatever was assigned before it returned
+                    since = setlog[lp][rq["set0"]:]
+                    rec["logics"] = list(dict.fromkeys([rq["cfg0"]["logic"]] + [v for _i, a, v in since if a == "logic"]))
+                    rec["names"] = list(dict.fromkeys([rq["cfg0"]["name"]] + [v for _i, a, v in since if a == "name"]))
+                    rec["caching"] = list(dict.fromkeys([rq["cfg0"]["cache"]] + [v for _i, a, v in since if a == "cache"]))
+                    rec["breaker_on"] = bool(rq["cfg0"]["breaker"])
+                    rec["logic_assigned_at"] = [j for j, a, _v in setlog[lp] if a == "logic"]
                     if "raised" in rq:
                         rec["raised"] = rq["raised"]
                         said.append((5, 5))
@@ -915,6 +1139,11 @@ class C07(Check):
                             loop.get_circuit_breaker_stats()
                         elif kind == "x":
                             loop.reset_circuit_breaker()
+                        elif kind == "s":
+                            assign(i, lp, op[2], op[3])
+                            recs[i] = {"op": "s", "loop": lp, "attr": op[2], "value": op[3]}
+                            obs[i] = [-4, self._cache_size(loop)]
+                            continue
                         elif kind == "b":
                             begin(i, op)
                             continue
@@ -977,6 +1206,11 @@ class C07(Check):
                 ops.append(ctuple(b, f"CBegin {cz(rid)} {cstr(p)} {cz(t)} {VERDICT_COQ[z]} {VERDICT_COQ[y]}"))
             elif op[1] == "e":
                 ops.append(ctuple(b, f"CEnd {cz(op[2])} {cz(op[3])}"))
+            elif op[1] == "s":
+                attr, v = op[2], op[3]
+                arg = (LOGIC_COQ[v] if attr == "logic" else cstr(NAMES[v]) if attr == "name"
+                       else cbool(v) if attr in ("cache", "breaker") else cz(v))
+                ops.append(ctuple(b, f"CSet ({SETTINGS[attr]} {arg})"))
             else:
                 ops.append(ctuple(b, {"c": "CClear", "o": "CObserve", "x": "CReset"}[op[1]]))
         loops = case["loops"]
@@ -1007,14 +1241,13 @@ class C07(Check):
         for i, r in enumerate(trace["recs"]):
             if r["op"] != "r":
                 continue
-            logic = trace["logics"][r["loop"]]
             if "raised" in r:
                 if r["raised"] == "UnicodeEncodeError":
                     continue        # no reply at all for an unencodable prompt (outside the domain; recorded)
                 return Violation("C07/run-raises", f"request {i} ({r['prompt']!r}): run() raised {r['raised']} instead of returning a blocked result")
             verdict = (r["blocked"], r["success"], r["action"], r["token"])
             if r["exec_called"] == 0 and r["assess_called"] == 0 and r["blocked"] and r["token"] is None \
-                    and r["action"] == "CIRCUIT_OPEN" and case["loops"][r["loop"]].get("breaker"):
+                    and r["action"] == "CIRCUIT_OPEN" and r["breaker_on"]:
                 continue        # turned away by the circuit breaker: blocked, no token, nobody asked - not a cached reply
             if r["exec_called"] == 0 and r["assess_called"] == 0:
                 cands = original.get((r["loop"], r["prompt"]))
@@ -1025,14 +1258,31 @@ class C07(Check):
                     o = cands[0]
                     return Violation("C07/cache-differs", f"request {i} ({r['prompt']!r}): cached reply {verdict} differs from the original {(o['blocked'], o['success'], o['action'], o['token'])}")
                 z, y = o["vz"], o["vy"]
+                # "identical in verdict to the original": the original was decided under what was configured THEN
+                logics, names = o["logics"], o["names"]
             else:
+                # "the configured gate logic": what is configured on this loop object while the request is dealt
+                # with - the logic at its begin or any logic assigned before it returned (a request that is not
+                # in flight during an assignment has exactly one), never one that an assignment had replaced
+                # before the request began, such as the one the loop was built with
+                logics, names = r["logics"], r["names"]
                 # the verdicts of THIS request are what the agents said when asked at it
                 z = r["z"] if r["exec_called"] else NOT_ASKED
                 y = r["y"] if r["assess_called"] else NOT_ASKED
                 r["vz"], r["vy"] = z, y
                 key = (r["loop"], r["prompt"])
-                original[key] = [r] + [c for c in original.get(key, []) if c["done"] > r["begun"]]
-            if not r["blocked"] and not spec_pass(logic, z, y):
+                if r["caching"] == [True]:
+                    original[key] = [r] + [c for c in original.get(key, []) if c["done"] > r["begun"]]
+                elif True in r["caching"]:
+                    # enable_cache was assigned while the request was in flight: its reply may or may not be the
+                    # one later cached replies repeat
+                    original[key] = [r] + original.get(key, [])
+                # a reply produced with caching switched off is nobody's original: an earlier one stays
+            if not r["blocked"] and not any(spec_pass(lg, z, y) for lg in logics):
+                logic = "/".join(logics)
+                at = [j for j in r["logic_assigned_at"] if j < i]
+                if at:
+                    logic += f" (gate_logic assigned at operation {at[-1]}; the loop was built with {trace['logics'][r['loop']]})"
                 if z == 7 or y == 7:
                     return Violation("C07/exception-not-blocked", f"request {i} ({r['prompt']!r}): {'the executor' if z == 7 else 'the assessor'} raised but the result is not blocked ({logic}; action {r['action']}, cached flag {r['cached']}, token {'yes' if r['token'] else 'no'})")
                 if z in UNKNOWN_CODES and y in UNKNOWN_CODES:
@@ -1044,8 +1294,8 @@ class C07(Check):
                     return Violation("C07/token-without-assessor-permit", f"request {i}: approval token attached although the assessor said {VERDICT_COQ[y]}")
                 if h != sha16(r["prompt"]):
                     return Violation("C07/token-hash-not-bound", f"request {i}: token hash {h} is not sha256({r['prompt']!r})[:16] = {sha16(r['prompt'])}")
-                if issuer != r["assessor_name"]:
-                    return Violation("C07/token-issuer", f"request {i}: token issuer {issuer!r} is not the assessor {r['assessor_name']!r}")
+                if issuer not in names:
+                    return Violation("C07/token-issuer", f"request {i}: token issuer {issuer!r} is not the assessor {'/'.join(repr(n) for n in names)}")
                 if token_for.setdefault(h, r["prompt"]) != r["prompt"]:
                     return Violation("C07/token-shared-between-requests", f"request {i}: the token for {r['prompt']!r} carries the same request hash {h} as the token given for {token_for[h]!r}")
         return None
@@ -1076,10 +1326,26 @@ class C07(Check):
             ks.append(f"overlap={case['overlap']}")
         recs = trace.get("recs", [])
         for i, r in enumerate(recs):
+            if r["op"] == "s":
+                ks.append(f"op=assign({r['attr']})")
+                if any(q["op"] == "b" and q["loop"] == r["loop"] and not any(d.get("begun") == j for d in recs[j + 1:i] if d["op"] == "r")
+                       for j, q in enumerate(recs[:i])):
+                    ks.append(f"reconf/{r['attr']}-assigned-while-a-request-is-in-flight")
+                continue
             if r["op"] != "r":
                 ks.append({"c": "op=clear_cache", "o": "op=read-only-calls", "x": "op=reset_circuit_breaker",
                            "b": "op=begin(now in flight)", "e": "op=end(nothing in flight)"}[r["op"]])
                 continue
+            if any(j < i for j in r.get("logic_assigned_at", ())):
+                ks.append("reconf/reply-after-gate_logic-assignment")
+                if r.get("logics") and r["logics"][-1] != trace["logics"][r["loop"]]:
+                    ks.append("reconf/reply-under-another-logic-than-built-with")
+                    if r.get("cached"):
+                        ks.append("reconf/cached-reply-under-another-logic-than-built-with")
+                    elif r.get("blocked") is False:
+                        ks.append("reconf/fresh-pass-under-another-logic-than-built-with")
+            if len(r.get("logics", ())) > 1:
+                ks.append("reconf/reply-of-a-request-in-flight-during-gate_logic-assignment")
             if r.get("overlapped"):
                 # what happened on the same loop object while this request was inside an agent
                 between = [q for q in recs[r["begun"] + 1:i] if q["loop"] == r["loop"]]
@@ -1119,7 +1385,17 @@ class C07(Check):
         return ks
 
     def shrink(self, case, pred):
-        ops = common.shrink_list(case["ops"], lambda xs: len(xs) > 0 and pred({**case, "ops": xs}))
+        # keep the failure that is reported: same signature (pred) and the same description but for the positions
+        import re
+        norm = lambda w: re.sub(r"\b(request|operation) \d+", r"\1 N", str(w))
+
+        def what(c):
+            obs, trace = self._safe_impl(c)
+            v = self.monitor(c, obs, trace)
+            return None if v is None else norm(v.what)
+        want = what(case)
+        same = (lambda c: pred(c) and what(c) == want) if want is not None else pred
+        ops = common.shrink_list(case["ops"], lambda xs: len(xs) > 0 and same({**case, "ops": xs}))
         return {**case, "ops": ops}
 
 
